@@ -60,6 +60,7 @@ def cond_text(fi, f, a):
     return "(not (== (h_%d %d) %d))" % (fi, a["x"], val + 1 if t else val)
 
 
+EXT_NO_SHADOW_KNOWN = [False, 0]      # [ledger lists the finding, number of exclusions in this process]
 EXTERN_OK = [None]      # does the front end accept a direct extern call outside `unsafe`? (probed once per process)
 
 
@@ -76,6 +77,10 @@ def build(c):
     for fi, f in enumerate(c["funcs"]):
         if f.get("ext") and not use_ext:
             f = dict(f, ext=False)
+        if f.get("ext") and not f["shadow"] and EXT_NO_SHADOW_KNOWN[0]:
+            # open finding missing-shadow-not-reported-for-extern-users: such a function is not reported; excluded by construction
+            f = dict(f, shadow=True)
+            EXT_NO_SHADOW_KNOWN[1] += 1
         if f.get("ext"):
             # a function that calls an extern function directly: nanoc skips its shadow block (its assertions are not executed)
             L.append("fn h_%d(a: int) -> int {\n    return (+ (* (labs a) %d) %d)\n}" % (fi, f["k"], f["c"]))
@@ -138,6 +143,7 @@ def make_ctx(widx, tier, opts):
     ctx.tools = runner.Tools("plain")
     ctx.dir = os.path.join(common.scratch(), "w%d" % widx)
     os.makedirs(ctx.dir, exist_ok=True)
+    EXT_NO_SHADOW_KNOWN[0] = any(f["id"] == "missing-shadow-not-reported-for-extern-users" for f in common.open_findings(PROP))
     if EXTERN_OK[0] is None:
         # the skip rule for extern users can only be exercised while the front end accepts a direct extern call
         # (open C05 finding extern-call-outside-unsafe-unchecked); if that is ever rejected the generator leaves it out
@@ -195,7 +201,10 @@ def judge(ctx, src, failing, missing, name="g.nano"):
 
 
 def run_case(ctx, c, ev):
+    n0 = EXT_NO_SHADOW_KNOWN[1]
     src, failing, missing, nexec_false, unexec_false = build(c)
+    if EXT_NO_SHADOW_KNOWN[1] > n0:
+        ev.exclude("extern_user_without_shadow_block", EXT_NO_SHADOW_KNOWN[1] - n0)
     v, detail = judge(ctx, src, failing, missing)
     nsh = sum(1 for f in c["funcs"] if f["shadow"])
     nested_false = any((not a["truth"]) and a["wrap"] != "plain" for f in c["funcs"] for a in f["asserts"])
